@@ -239,7 +239,16 @@ def sequential_case(case):
     if case.get("repeat_first_last") and len(built) >= 2:
         built[-1] = built[0]                       # the SAME module instance registered in two positions
     mods = [b[0] for b in built]
-    if form == "positional": S = nn.Sequential(*mods)
+    inner_containers = []
+    if form.startswith("nested"):
+        # Sequentials inside a Sequential: a container is ONE stage (registered as such, reached by train/eval, extended later)
+        if form == "nested_single": inner = nn.Sequential(*mods); S = nn.Sequential(inner); inner_containers = [inner]
+        elif form == "nested_first": inner = nn.Sequential(*mods[:-1]); S = nn.Sequential(inner, mods[-1]); inner_containers = [inner]
+        elif form == "nested_last": inner = nn.Sequential(*mods[1:]); S = nn.Sequential(mods[0], inner); inner_containers = [inner]
+        else:
+            h = len(mods) // 2
+            i1, i2 = nn.Sequential(*mods[:h]), nn.Sequential(*mods[h:]); S = nn.Sequential(i1, i2); inner_containers = [i1, i2]
+    elif form == "positional": S = nn.Sequential(*mods)
     else:
         keys = (["zz", "b", "a_last"] + [f"k{99 - i}" for i in range(40)])[: len(mods)]      # keys whose sorted order differs from insertion order
         S = nn.Sequential(collections.OrderedDict(zip(keys, mods)))
@@ -273,9 +282,25 @@ def sequential_case(case):
     if len(gotp) != len(expp) or any(a is not b for a, b in zip(gotp, expp)):
         viol.append({"kind": "sequential:parameter-order", "detail": f"{names} {form}: parameters() not in registration order"})
     S.eval()
-    if any(m.training for m in mods): viol.append({"kind": "sequential:eval-not-propagated", "detail": f"{names}"})
+    if any(m.training for m in mods + inner_containers): viol.append({"kind": "sequential:eval-not-propagated", "detail": f"{names} {form}"})
     S.train()
-    if not all(m.training for m in mods): viol.append({"kind": "sequential:train-not-propagated", "detail": f"{names}"})
+    if not all(m.training for m in mods + inner_containers): viol.append({"kind": "sequential:train-not-propagated", "detail": f"{names} {form}"})
+    if inner_containers:
+        subs = S.submodules()
+        if len(subs) != (1 if form == "nested_single" else 2) or (form == "nested_single" and subs[0] is not inner_containers[0]):
+            viol.append({"kind": "sequential:nested-container-not-one-stage", "detail": f"{names} {form}: the outer Sequential lists {len(subs)} submodules"})
+        # a stage appended to the inner container afterwards is part of the outer pipeline too
+        extra = _layer(sg, "inc", 9)
+        try:
+            if form == "nested_first": raise StopIteration        # there the inner container is not the final stage
+            inner_containers[-1].register_module("appended", extra[0])
+            out2 = S(sg.Tensor(x.copy()))
+            if not np.allclose(np.asarray(out2.data, dtype=np.float64), extra[1](exp), rtol=1e-6, atol=1e-6):
+                viol.append({"kind": "sequential:not-composition-in-order", "detail": f"{names} {form}: a stage appended to the inner container is not applied by the outer one"})
+        except StopIteration:
+            pass
+        except Exception as ex:
+            viol.append({"kind": "sequential:raised", "detail": f"{form}: {type(ex).__name__}: {ex}"})
     return viol
 
 def tree_shapes(nmax):
@@ -370,6 +395,8 @@ def run(tier, seed):
     depth = 4 if tier == "quick" else 5
     res = explorer.explore(make_world, depth, time_budget=900 if tier == "thorough" else 100)
     seqs = [{"seq": list(c), "form": f} for n in (1, 2, 3) for c in itertools.product(LAYERS, repeat=n) for f in ("positional", "ordered_dict")]
+    seqs += [{"seq": list(c), "form": f} for n in (2, 3, 4) for c in itertools.product(("double", "inc", "linear"), repeat=n)
+             for f in ("nested_single", "nested_first", "nested_last", "nested_both")]
     # long pipelines (positional names "0" .. "12": string order differs from numeric order beyond ten stages)
     for n in (10, 11, 12, 13, 21):
         pat = [("double", "inc", "linear", "inc", "relu")[i % 5] for i in range(n)]
